@@ -44,9 +44,73 @@ DESC = {
  'C16-d': "the receive statement uses a non-blocking TryRecv on buffered channels: an open, momentarily empty channel reads as closed",
  'C19-d': "toInt parses numeral strings through float64 only (integers above 2^53 come back rounded)",
  'C20-b': "the right operand of comparisons is no longer unwrapped from an interface-typed element",
+ 'C03-e': "scanNumber keeps the exponent marker as written: an upper-case E is no longer normalised to e, and toNumber (which classifies a numeral as float by '.' or lower-case 'e') rejects 1E3",
+ 'C04-e': 'runIfStmt skips the child scope for then/else blocks whose top-level statements are judged not to bind names; the judgement overlooks `v, ok = m[k]` and `x = <-ch`',
+ 'C05-e': "string + number formats floats through numToString (strconv 'G': upper-case exponent) instead of fmt.Sprint",
+ 'C06-e': "`in` takes a Go == fast path when the item's static type equals the list's element type - also for an interface-typed item and a []interface{} list, where vm.equal's cross-type equalities are lost",
+ 'C07-e': 'x[i] on a nil map returns nil before evaluating the index operand',
+ 'C08-e': 'runSwitchStmt clears a pending break after the chosen case/default body: break inside a switch no longer reaches the enclosing loop',
+ 'C09-e': 'try treats any *Error whose message equals "execution interrupted" as an interruption: neither catch nor finally runs for it',
+ 'C10-e': 'delete returns early for an EMPTY map (Len()==0) instead of a nil one: key conversion and hashability check are skipped',
+ 'C11-e': 'several results of a Go function: the result list is pre-sized and typed-nil results (nil slice/map/pointer of a concrete type) are skipped with isNil, arriving as untyped nil',
+ 'C12-e': 'Copy shares the live values/types map with the original when the map is allocated but empty',
+ 'C19-e': 'toString type-switch fast path formats float32 through float64 with bitSize 64',
+ 'C20-e': 'for-in dereferences a non-nil pointer operand before the interface unwrap: a pointer to a slice loops when held in a variable but fails when read from an interface-typed element, field or Go result',
+ 'C01-e': '% keeps its zero check only on an integer fast path; with a non-integer operand the generic path divides by toInt64(rhs) unchecked: Go panic escapes Execute',
+ 'C02-e': 'the reflect.MakeFunc translator (5+ parameters, variadic) runs the body under runInfo.ctx of the run that DEFINED the function instead of the context passed by the caller',
+ 'C14-e': 'int64Cache slots are boxed out of one package-level backing array: cached values become addressable, &x yields a pointer into process-wide storage',
+ 'C15-e': 'scanRawString slices the body out of src and counts lines itself without updating lineHead: columns on the closing line of a multi-line raw string / block comment are measured from a stale line head',
+ 'C16-e': "the receive select-case slice is cached on runInfo and hoisted out of the for-in-channel loop: a receive in the loop body redirects the loop's next receive to the body's channel",
+ 'C17-e': "walkExpr's SliceExpr case returns after End when Begin is nil: the Cap subtree of item[:end:cap] is never presented",
+ 'C13-f': 'SetValue walks the chain checking each scope under RLock and takes the write lock only on the scope where the symbol was found: check and write are two critical sections',
+ 'C18-f': 'runNonInteractive buffers the output of print/println/printf (bufio over stdout, flushed at exit) while output written by bundled packages goes straight to fd 1',
+ 'C03-f': "toNumber's four prefix branches are merged: magnitude parsed with ParseUint, sign applied afterwards, range check off by one for positive literals",
+ 'C04-f': 'NewEnv links a child scope to the nearest non-empty ancestor instead of its real parent (empty scopes are skipped at creation time)',
+ 'C05-f': 'shift counts >= 64 short-circuit to 0 for both << and >>',
+ 'C08-f': 'runStmtsStmt handles a bare `return` itself (sets ErrReturn) without running runReturnStmt, whose reset of rv to nil is thereby skipped',
+ 'C09-f': "runDefers takes a deferred call's error only when the incoming error is nil; funcExpr clears ErrReturn before calling it, RunContext does not",
+ 'C10-f': 'a slice expression covering the whole operand returns the operand itself before the cap operand is looked at',
+ 'C11-f': "element-wise conversions skip nil interface elements ('the zero value is already in place'); for maps the key is then absent from the converted map",
+ 'C19-f': 'toChar returns string([]byte{byte(s)}) for code points 0..255',
+ 'C20-f': "switch compares subject and case with Go == when both have the same static type; two interface-typed operands always look same-typed, so vm.equal's cross-type equalities are lost",
+ 'C07-f': 'variadic tail of a non-spread call: all remaining operands are evaluated first, conversion to the element type happens in a second loop',
+}
+NEEDS = {
+ 'C13-f': "Set(x) racing Delete(x) on the same scope: the Delete runs between SetValue's RUnlock and Lock and the binding is resurrected",
+ 'C18-f': "a script mixing println with fmt.Println of the imported fmt package: the command's stdout is reordered",
+ 'C03-f': 'an unsigned hexadecimal or binary literal equal to exactly 2^63 (0x8000000000000000) parses as MinInt64 instead of being rejected',
+ 'C04-f': 'a closure created in a nested block while the enclosing function scope is still empty, which escapes; the function scope binds a name afterwards; the closure reads/writes the outer binding',
+ 'C05-f': '>> with a negative left operand and an (unsigned) count >= 64, e.g. -1 >> 64 or -1 >> -1 (Go: -1)',
+ 'C08-f': 'a bare return inside a block after a statement (or as first statement of a loop/switch body) that left a non-nil value: the function yields that value instead of nil',
+ 'C09-f': 'a top-level defer whose call fails, with the top-level code ending in an explicit return: the deferred error is dropped',
+ 'C10-f': 'x[0:len(x):max] on a slice: cap operand neither evaluated, validated nor applied (aliasing after growth, bad caps accepted)',
+ 'C11-f': 'a script map with a nil value passed to a Go parameter of another map type (map[string]int): the callee sees a shorter map',
+ 'C19-f': "toChar of a code point in 128..255: one raw byte (invalid UTF-8) instead of Go's two-byte encoding",
+ 'C20-f': 'switch subject and case both read from slice elements / interface{} fields / Go results, with loosely equal values of different dynamic types (1 vs 1.0)',
+ 'C07-f': 'a Go function with a typed variadic parameter (...int64), an unconvertible operand followed by further operands: they are evaluated although the call is rejected',
+ 'C03-e': 'a float literal spelled with an upper-case E and no decimal point (1E3, 2E-2)',
+ 'C04-e': 'an if/else block consisting only of a two-value map read or a channel receive statement (plus non-binding statements), whose target names are unbound outside',
+ 'C05-e': 'concatenating a string with a float whose default formatting uses an exponent (>= 1e21 ... or |x| >= 1e6 / < 1e-4 as float)',
+ 'C06-e': 'item written directly as a slice element (a[0] in [...]) and a match that needs a cross-type equality ("1" vs 1, 1 vs 1.0)',
+ 'C07-e': 'indexing a nil map (Go-side nil map, element of make([]map[..]..)) with an index expression that has an effect or raises an error',
+ 'C08-e': 'a switch inside a loop with a break executed in a case or default body',
+ 'C09-e': 'throw "execution interrupted" (or an error printing as that text) inside a try body or a function called from it',
+ 'C10-e': 'delete with an unhashable or inconvertible key on a non-nil map that is empty at that moment',
+ 'C11-e': 'a Go function with two or more results of which one is a typed nil pointer/slice/map',
+ 'C12-e': 'a scope whose values were all deleted again, then Copy/DeepCopy, then a Define on either side',
+ 'C19-e': 'toString of a bare float32 that is not exactly representable in few digits (element of make([]float32, 1) set to 0.1)',
+ 'C20-e': 'for x in <pointer to slice/array> where the pointer comes from a slice element, an interface{} struct field or a Go function returning interface{}',
+ 'C01-e': 'a % b with a float/bool/nil/string/container operand whose right side truncates to 0 (7 % 0.5, 7 % nil)',
+ 'C02-e': 'a script function with >= 5 parameters or a variadic one, defined in an earlier Execute call and then called (spinning) under a later cancellable context',
+ 'C14-e': 'a variable holding a computed integer in -1..4095, its address taken, a write through the pointer; every later run sees the changed integer',
+ 'C15-e': 'a raw string or /* */ comment containing a newline, followed on its closing line by a token that reports a position (an error)',
+ 'C16-e': 'for x in ch whose body (same function frame) receives from a different channel',
+ 'C17-e': 'a three-index slice expression without a begin bound (a[:x:y+1])',
 }
 EXTRA_PROPS = {'C09-c': ['C14']}   # seeds whose change is (also) a violation of another claimed property
 FIRST = {  # verdict of the check as it was when the seed was first evaluated
+ 'C11-f': 'missed', 'C19-f': 'missed', 'C07-f': 'missed', 'C20-f': 'missed by the C20 check, caught by the C08 and C06 checks (runSwitchStmt matching clauses, now also tagged C20)',
+ 'C03-e': 'missed', 'C07-e': 'missed', 'C10-e': 'missed', 'C11-e': 'missed', 'C19-e': 'missed', 'C20-e': 'missed', 'C02-e': 'missed', 'C14-e': 'missed',
  'C08-a': 'missed', 'C08-b': 'missed', 'C04-b': 'missed', 'C19-b': 'missed', 'C01-b': 'missed',
  'C06-d': 'missed', 'C10-d': 'missed', 'C11-d': 'missed', 'C19-d': 'missed',
  'C07-c': 'missed', 'C10-c': 'missed', 'C11-c': 'missed', 'C16-c': 'missed', 'C09-c': 'missed by the C09 check, caught by the C14 check (store into the parsed tree)',
@@ -94,7 +158,8 @@ def run(ids, work):
         obl = [l.strip() for l in out.split('\n') if l.startswith('  obligation') or l.startswith('  proved obligation group')]
         demo = [f for f in os.listdir(d) if f.endswith('_test.go')]
         meta = {
-            'seed': sid, 'property': prop, 'change': DESC.get(sid, ''),
+            'seed': sid, 'property': prop, 'change': DESC.get(sid, ''), 'needs_to_manifest': NEEDS.get(sid, 'see change'),
+            'ran': 'tools/seed_eval.sh (scratch worktree: go build ./..., go test ./... without the demo, demo with / without the change) and tools/seed_recheck.py (patch applied to a copy of /repo, govc check --property <id>, patch reverted)',
             'origin': 'independent sub-agent given only the property text and a scratch worktree; compiles, existing suite passes, demo test fails with the change and passes without it (confirmed with tools/seed_eval.sh)',
             'demo_test': demo[0] if demo else None,
             'first_evaluation': FIRST.get(sid, 'caught'),
